@@ -184,9 +184,15 @@ def retry_timeouts(prop: Prop, cases: list, impl_side: list):
     old = getattr(prop, "CASE_TIMEOUT", 30)
     prop.CASE_TIMEOUT = max(120.0, 10.0 * float(old))
     out = list(impl_side)
+    hangs = 0
     try:
         for i in idx[:200]:
             out[i] = _pool_run(cases[i])
+            io, orc = out[i][0], out[i][1]
+            if (isinstance(io, dict) and io.get("raised") == "CaseTimeout") or any("time limit" in str(v.get("what", "")) for v in orc):
+                hangs += 1
+                if hangs >= 2:
+                    break  # limits count CPU time: two cases that do not finish alone in 10x the limit are a reproducible hang
     finally:
         prop.CASE_TIMEOUT = old
     return out, len(idx)
